@@ -131,8 +131,8 @@ def cast_cell(x, dt):
         if _py_isinstance(x, Sym):
             return x            # abstract string key
         return x
-    if k == "O":
-        return x
+    if k in "OcV":
+        return x            # opaque cells (complex / void): only moved, never computed with
     raise Unsupported("cast to dtype %s" % dt)
 
 
